@@ -58,12 +58,35 @@ fn enumerate(ctx: &mut Ctx, prefix: &mut String, len: usize, max_len: usize) {
     }
 }
 
+/// Σ plus a bare CR: all strings up to `max_len` that contain at least one CR.
+fn enumerate_cr(ctx: &mut Ctx, prefix: &mut String, len: usize, max_len: usize) {
+    if prefix.contains('\r') {
+        check(ctx, prefix);
+    }
+    if len == max_len {
+        return;
+    }
+    for s in SIGMA.iter().copied().chain(["\r"]) {
+        let keep = prefix.len();
+        prefix.push_str(s);
+        enumerate_cr(ctx, prefix, len + 1, max_len);
+        prefix.truncate(keep);
+    }
+}
+
 fn child_work(ctx: &mut Ctx, shard: &Value) {
     if let Some(one) = shard.get("one").and_then(|v| v.as_str()) {
         check(ctx, one);
         return;
     }
     let max_len = shard["max_len"].as_u64().unwrap() as usize;
+    if let Some(first) = shard.get("cr_first").and_then(|v| v.as_u64()) {
+        let first = SIGMA.iter().copied().chain(["\r"]).nth(first as usize).unwrap();
+        let mut prefix = first.to_string();
+        enumerate_cr(ctx, &mut prefix, 1, max_len);
+        ctx.out.dedup_distinct();
+        return;
+    }
     if shard["short"].as_bool() == Some(true) {
         // lengths 0 and 1
         check(ctx, "");
@@ -99,12 +122,19 @@ fn main() {
             shards.push(json!({"i": i, "j": j, "max_len": max_len}));
         }
     }
+    // second alphabet: Σ plus a bare carriage return, to a shorter length
+    let cr_len: usize = run.tier.pick(4, 5);
+    for first in 0..=SIGMA.len() {
+        shards.push(json!({"cr_first": first, "max_len": cr_len}));
+    }
     sup::supervise(&mut run, shards, stack, "C15:sigma:abort");
     run.set("alphabet", json!(SIGMA));
+    run.set("cr_alphabet_max_len", json!(cr_len));
     run.set("max_len", json!(max_len));
     run.set("stack_bytes", json!(stack));
     run.rule(&format!(
-        "ALL strings over the 18-symbol alphabet up to length {max_len} (sum of 18^k), each through parse_kip, parse_kql, \
+        "ALL strings over the 18-symbol alphabet up to length {max_len} (sum of 18^k), plus all strings over that alphabet and a \
+         bare CR up to length {cr_len} that contain a CR, each through parse_kip, parse_kql, \
          parse_kml, parse_meta and parse_json in a child process on a {stack}-byte stack with a 5 s per-parse deadline; \
          distinct = distinct parser reactions (refusal reason with positions and snippets removed, or accepted text)"
     ));
